@@ -39,6 +39,8 @@ mod symbol;
 mod symbol_slab;
 mod systematic_constants;
 mod util;
+#[cfg(feature = "verif_hooks")]
+pub mod verif;
 
 pub use crate::base::EncodingPacket;
 pub use crate::base::ObjectTransmissionInformation;
